@@ -158,6 +158,22 @@ class Iter(Gen):
         return "<iter>"
 
 
+class Func:
+    """A pure callable with a stable text form (may be a mapping value or
+    an attribute)."""
+
+    def __init__(self, tag):
+        self.tag = tag
+
+    def __call__(self, *args):
+        return "%s(%s)" % (self.tag, ",".join(str(a) for a in args))
+
+    def __repr__(self):
+        return "<func %s>" % self.tag
+
+    __str__ = __repr__
+
+
 def instantiate(d, encoding="utf-8"):
     k = d[0]
     if k == "none":
@@ -193,6 +209,8 @@ def instantiate(d, encoding="utf-8"):
         return IntSub(d[1], d[2])
     if k == "floatsub":
         return FloatSub(d[1], d[2])
+    if k == "func":
+        return Func(d[1])
     if k in ("dict", "items", "keys", "attrobj", "itemobj"):
         dd = {kk: instantiate(v, encoding) for kk, v in d[1]}
         if k == "dict":
